@@ -17,6 +17,11 @@
 EXTENDS YText
 
 Node(k, t, v, par) == [k |-> k, t |-> t, v |-> v, kids |-> <<>>, keys |-> <<>>, par |-> par, anchor |-> "", alias |-> 0]
+\* Optional field of a map node: kanch, aligned with keys - the Anchor name a key is an Alias of ("" = an ordinary key).
+\* The key's [t, v] then always equals the anchored scalar's (kept so by YEdit.SetScalars); only tables that hold such
+\* keys carry the field.
+KA(n) == IF "kanch" \in DOMAIN n THEN n.kanch ELSE <<>>
+KAOf(n, j) == IF j <= Len(KA(n)) THEN KA(n)[j] ELSE ""
 KeyRec(t, v) == [t |-> t, v |-> v]
 
 IsCont(n) == n.k \in {"map", "seq", "set"}
